@@ -120,6 +120,11 @@ def cases(spec, ctx):
         # the signal-range generator (bit-width test patterns) costs about half of a configuration's time and is
         # judged for validity only: it is run for one configuration in three
         yield {"recipe": r, "heavy": ctx.rng.random() < 0.34}
+        if ctx.rng.random() < 0.35:
+            # a sibling configuration (one attribute changed) straight afterwards in the same process, cheap generators only
+            sb = configs.sibling(ctx.rng, r, attr=ctx.rng.choice(["range_same_depth", "range_same_depth", "colour", None]))
+            ctx.count("sibling_configurations:" + str(sb.get("sibling_of")))
+            yield {"recipe": sb, "light": True, "heavy": False}
 
 
 def reference_sprite_pictures(cf):
@@ -172,7 +177,7 @@ def run_case(case, ctx):
         ctx.violation("duplicate-test-case-name", "test case names are not unique: %r" % (dup[:5],))
     ctx.count("configurations")
     if case.get("light"):
-        ctx.count("light_configurations:" + ("level-%d" % recipe["level"] if recipe["level"] else "wavelet-pair-sweep"))
+        ctx.count("light_configurations:" + ("level-%d" % recipe["level"] if recipe["level"] else "sibling" if recipe.get("sibling_of") else "wavelet-pair-sweep"))
         ctx.note("wavelet_pairs_swept", "%d/%d" % (recipe["wi"], recipe["wih"]))
     ctx.count("stratum:" + configs.stratum(recipe))
     if ctx.rng.random() < 0.05:
